@@ -953,6 +953,18 @@ func (e *Engine) declareSpec(sf *SpecFunc) {
 			env.bound[p.Name] = Val{K: KScalar, T: p.Name, Sort: specSort(p.Type)}
 		}
 	}
+	if sf.Body == nil {
+		var sorts []string
+		for _, p := range sf.Params {
+			if p.Type == "seq" {
+				sorts = append(sorts, "(Array Int Int)", "Int", "Int")
+			} else {
+				sorts = append(sorts, specSort(p.Type))
+			}
+		}
+		e.ctx.pre = append(e.ctx.pre, fmt.Sprintf("(declare-fun %s (%s) %s)", name, strings.Join(sorts, " "), specSort(sf.Result)))
+		return
+	}
 	body := env.eval(sf.Body)
 	if body.K != KScalar {
 		cerr("spec %s: body must be scalar", sf.Name)
@@ -1017,16 +1029,87 @@ func (env *Env) evalQuant(x EQuant) Val {
 	if body.K != KScalar || body.Sort != "Bool" {
 		cerr("quantifier body must be boolean")
 	}
+	// Instance hints: a bounded quantifier is logically equivalent to itself together with
+	// its instances at the indices of the range loops that are live at this point
+	// (forall: conjoined, exists: disjoined).  Solvers normalise the arithmetic inside
+	// "(+ off i)" index terms, so E-matching often misses exactly these instances.
+	var hints []string
+	if len(x.Vars) == 1 && x.Lo != nil && env.qdepth == 0 && !env.pure && env.e.fc != nil && env.e.fc.IndexHints {
+		hints = env.indexHints()
+	}
+	inst := func(t string, f string) string { return replaceToken(f, names[0], t) }
 	if x.Forall {
-		rel := fmt.Sprintf("(forall (%s) %s)", strings.Join(vars, " "), implies(and(guards...), body.T))
+		matrix := implies(and(guards...), body.T)
+		rel := fmt.Sprintf("(forall (%s) %s)", strings.Join(vars, " "), matrix)
+		parts := []string{rel}
 		if len(x.Vars) == 1 && x.Lo != nil {
 			if abs := absoluteForm(names[0], env.eval(x.Lo).T, env.eval(x.Hi).T, body.T); abs != "" {
-				return boolv(and(rel, abs))
+				parts = append(parts, abs)
 			}
 		}
-		return boolv(rel)
+		for _, h := range hints {
+			parts = append(parts, inst(h, matrix))
+		}
+		return boolv(and(parts...))
 	}
-	return boolv(fmt.Sprintf("(exists (%s) %s)", strings.Join(vars, " "), and(append(guards, body.T)...)))
+	matrix := and(append(guards, body.T)...)
+	ex := fmt.Sprintf("(exists (%s) %s)", strings.Join(vars, " "), matrix)
+	if len(hints) == 0 {
+		return boolv(ex)
+	}
+	parts := []string{ex}
+	for _, h := range hints {
+		parts = append(parts, inst(h, matrix))
+	}
+	return boolv(or(parts...))
+}
+
+// indexHints returns the terms of the hidden range-loop indices that are live in the
+// current state (and their successors).
+func (env *Env) indexHints() []string {
+	if env.fr == nil || env.st == nil {
+		return nil
+	}
+	var out []string
+	var cells []*Cell
+	for al, c := range env.fr.cells {
+		if al.Comment == "rangeindex" {
+			if _, live := env.st.cells[c]; live {
+				cells = append(cells, c)
+			}
+		}
+	}
+	sort.Slice(cells, func(i, j int) bool { return cells[i].ID < cells[j].ID })
+	for _, c := range cells {
+		if len(out) >= 6 {
+			break
+		}
+		v := env.st.cells[c]
+		if v.K == KScalar && v.T != "" {
+			out = append(out, v.T, sx("+", v.T, "1"))
+		}
+	}
+	return out
+}
+
+// replaceToken replaces every occurrence of the identifier tok in the S-expression f.
+func replaceToken(f, tok, by string) string {
+	var b strings.Builder
+	for i := 0; i < len(f); {
+		if strings.HasPrefix(f[i:], tok) {
+			j := i + len(tok)
+			before := i == 0 || f[i-1] == ' ' || f[i-1] == '('
+			after := j == len(f) || f[j] == ' ' || f[j] == ')'
+			if before && after {
+				b.WriteString(by)
+				i = j
+				continue
+			}
+		}
+		b.WriteByte(f[i])
+		i++
+	}
+	return b.String()
 }
 
 // malformedTerm: "errors.As(err, **MalformedFileError) succeeds".  True for the
